@@ -366,7 +366,7 @@ func runProgram(prog string, osRoot string) childResult {
 					if op.name == "mv" && isUnder(strings.TrimSuffix(op.b, "/"), op.a) && bn == "mem" {
 						key = "move-directory-into-own-descendant-panics-on-memory-backend"
 					}
-					rep.Fail(hx.Failure{Kind: "impl-violates-property", Key: key, Case: bn + ": " + prog, Expected: "the call returns", Observed: op.String() + ": " + out})
+					rep.Fail(hx.Failure{Kind: "impl-violates-property", Key: key, Case: "fsprog " + prog + " [" + bn + "]", Expected: "the call returns", Observed: op.String() + ": " + out})
 					break
 				}
 				if out == "noreturn" {
@@ -377,12 +377,12 @@ func runProgram(prog string, osRoot string) childResult {
 							key = "copy-directory-into-own-descendant-never-returns"
 						}
 					}
-					rep.Fail(hx.Failure{Kind: "impl-violates-property", Key: key, Case: bn + ": " + prog, Expected: "the call returns", Observed: op.String() + " did not return by itself (stopped by the 700 ms deadline / 2 s watchdog)"})
+					rep.Fail(hx.Failure{Kind: "impl-violates-property", Key: key, Case: "fsprog " + prog + " [" + bn + "]", Expected: "the call returns", Observed: op.String() + " did not return by itself (stopped by the 700 ms deadline / 2 s watchdog)"})
 					break
 				}
 				// ---- second sentence monitors --------------------------------------------------
 				if opened, closed := b.rec.opened, b.rec.closed; opened != closed {
-					rep.Fail(hx.Failure{Kind: "impl-violates-property", Key: "handle-leak:" + op.name, Case: bn + ": " + prog, Expected: "every opened handle closed", Observed: fmt.Sprintf("%s: opened %d, closed %d", op, opened, closed)})
+					rep.Fail(hx.Failure{Kind: "impl-violates-property", Key: "handle-leak:" + op.name, Case: "fsprog " + prog + " [" + bn + "]", Expected: "every opened handle closed", Observed: fmt.Sprintf("%s: opened %d, closed %d", op, opened, closed)})
 				}
 				_, after := b.dump()
 				dest := op.a
@@ -412,7 +412,7 @@ func runProgram(prog string, osRoot string) childResult {
 							key = "memory-backend-turns-file-ancestor-into-directory"
 							corrupted = true // MemMapFs is now internally inconsistent: a later Rename may kill the process
 						}
-						rep.Fail(hx.Failure{Kind: "impl-violates-property", Key: key, Case: bn + ": " + prog, Expected: "entries outside the destination untouched", Observed: fmt.Sprintf("%s: %s was %s, now %q", op, p, v, av)})
+						rep.Fail(hx.Failure{Kind: "impl-violates-property", Key: key, Case: "fsprog " + prog + " [" + bn + "]", Expected: "entries outside the destination untouched", Observed: fmt.Sprintf("%s: %s was %s, now %q", op, p, v, av)})
 					}
 				}
 				if (op.name == "cp" || op.name == "mv" || op.name == "rm" || op.name == "clean") && before[op.a] != "" {
